@@ -6,6 +6,7 @@
 mod boxed;
 mod fixed;
 mod gens;
+mod recsel;
 mod sim;
 
 use vmodel::*;
@@ -68,5 +69,6 @@ fn subchecks(ctx: &Ctx) -> Vec<SubCheck> {
     v.push(SubCheck::new("boxed/div-mixed-precision/1..=70", 20_000, boxed::boxed_div_mixed(70, false)).tape(48 + 8 * 140));
     v.push(SubCheck::new("boxed/checked_div-mixed-precision/1..=70", 4_000, boxed::boxed_div_mixed(70, true)).tape(48 + 8 * 140));
     v.push(SubCheck::new("boxed/limb/1..=70", 30_000, boxed::boxed_limb(70)).tape(48 + 4 * 70));
+    v.extend(recsel::subchecks());
     v
 }
